@@ -4563,6 +4563,10 @@ fn eval_builtin<S: EvalSemantics, V: DocumentValue>(
                     .map(to_owned_cursor)
                     .collect();
                 GenericResult::Owned(OwnedValue::Array(values))
+            } else if value.is_null() {
+                // jq: `null | reverse` => [] (reverse is `[.[length - 1 - range(0;length)]]`
+                // and `null | length` is 0); the library evaluator already answers so.
+                GenericResult::Owned(OwnedValue::Array(Vec::new()))
             } else if optional {
                 GenericResult::None
             } else {
